@@ -1467,6 +1467,68 @@ class Analysis:
         self.rounds = 60
         self.problems.append("summaries did not stabilise in 60 rounds")
 
+    def zero_progress_cycles(self):
+        """cycles of parsing calls that hand on the very cursor they were entered with (per token fact known at the call):
+        recursion that can go round without consuming input never ends.  Nodes are (function, token fact); an edge is a call
+        whose cursor argument is not strictly behind the caller's own parameter."""
+        graph = {}
+        todo = [(p, None) for p in sorted(self.cands)]
+        while todo:
+            n = todo.pop()
+            if n in graph:
+                continue
+            try:
+                it, _ = self.run_fn(n[0], entry_tok=n[1])
+            except TooManyStates:
+                graph[n] = set()
+                continue
+            es = set()
+            for c, a in it.calls:
+                a2 = it.lift_out(a, set(it.parent))
+                if a2[1] == "P" and a2[2] != "TOP" and not is_plus(a2[2]) and c in self.cands:
+                    es.add((c, a2[3]))
+            graph[n] = es
+            todo += [m for m in es if m not in graph]
+        color, cycles = {}, []
+
+        def dfs(n, stack):
+            color[n] = 1
+            for m in sorted(graph.get(n, ()), key=str):
+                if color.get(m) == 1:
+                    cycles.append(stack[stack.index(m):] + [m])
+                elif color.get(m) is None:
+                    dfs(m, stack + [m])
+            color[n] = 2
+        for n in sorted(graph, key=str):
+            if color.get(n) is None:
+                dfs(n, [n])
+        return len(graph), cycles
+
+    def item_callbacks_advance(self):
+        """True when, at every call of parse_sep_end_by from outside itself, the `item` callback (last parameter) always
+        returns a cursor strictly behind its argument on Ok; otherwise a description of the offender"""
+        tgt = self.fns.get("sylt_parser::parse_sep_end_by")
+        if not tgt:
+            return "parse_sep_end_by not found"
+        idx = len(tgt["params"]) - 1
+        n = 0
+        for p in sorted(self.fns):
+            if p == "sylt_parser::parse_sep_end_by":
+                continue
+            fn = self.fns[p]
+            for c in nodes(fn_body(fn), "Call"):
+                if callee(c) != "sylt_parser::parse_sep_end_by" or len(c["args"]) <= idx:
+                    continue
+                n += 1
+                a0 = peel(c["args"][idx])
+                q = norm_path(a0.get("path")) if a0.get("k") == "Path" and a0.get("res") == "Def" else None
+                sm = self.summaries.get(q)
+                okv = sm["ret"][1] if sm and sm["ret"] and sm["ret"][0] == "r" else None
+                ctxv = okv[1][0] if okv and okv[0] == "t" else okv
+                if not (ctxv and ctxv[0] == "c" and is_plus(ctxv[2])):
+                    return "%s passes %s" % (last(p), pp(a0)[:40])
+        return True if n else "no call of parse_sep_end_by"
+
     def call_graph(self):
         g = {}
         for p in self.cands:
